@@ -163,7 +163,11 @@ func (s *scheduler) recordPanic(g *gor, pe *pathEnd) {
 	if fr == nil {
 		fr = &frame{i: s.i, g: g, fn: s.i.eng.dummyFn}
 	}
-	px.violationWith(fr, nil, "uncaught-panic", pe.msg, "panic")
+	msg := pe.msg
+	if s.i.panicOrigin != "" {
+		msg += " (raised in " + s.i.panicOrigin + ")"
+	}
+	px.violationWith(fr, nil, "uncaught-panic", msg, "panic")
 }
 
 func (s *scheduler) spawn(fr *frame, pos token.Pos, fn value, args []value) {
